@@ -88,6 +88,7 @@ def gen_world(rng, tier):
         "prefix": prefix,
         "tracked": tracked,
         "compress": rng.random() < 0.3,
+        "marks": rng.choice([2, 3]) if rng.random() < 0.06 else 1,
     }
 
 
@@ -95,6 +96,8 @@ def gen_pack(rng, world, flavour=None, allow_iterative=True):
     tracked = world["tracked"]
     lazy = lambda: rng.random() < 0.25  # noqa: E731
     initial = []
+    if world.get("marks", 1) > 1:
+        initial.append({"t": "ForgetMark", "lazy": lazy()})
     dup_stats = len(tracked) == 2 and tracked[0] == tracked[1]
     if rng.random() < 0.9:
         initial.append(
@@ -128,6 +131,16 @@ def gen_pack(rng, world, flavour=None, allow_iterative=True):
                 initial.append(dict(u, two_way=not u["two_way"], mask=None, lazy=False, ignore_parent=False))
             else:
                 (inferral if rng.random() < 0.7 else initial).append(u)
+    if rng.random() < 0.15:
+        # one-way renamings: directed cycles of one-way unary rules (overlapping ones with three letters)
+        n = len(world["alphabet"])
+        if n == 3 and rng.random() < 0.7:
+            perms = [[1, 2, 0], [2, 0, 1]] if rng.random() < 0.7 else [[1, 2, 0]]
+        else:
+            perms = [[1, 0] + list(range(2, n))]
+        tw = rng.random() < 0.2
+        for pm in perms:
+            initial.append({"t": "Rename", "perm": pm, "two_way": tw, "ignore_parent": False, "mask": _mask(rng, 0.1), "lazy": False})
     rng.shuffle(inferral)
     exp_mask = _mask(rng, 0.35)
     drop = bool(tracked) and rng.random() < 0.35
@@ -422,6 +435,13 @@ class Sim:
         self.ctx.ev("add", start, tuple(ends), strat_id(st))
         if self.record:
             self.trace.append(("add", start, tuple(ends), strat_id(st)))
+        if self.focus in ("C02", "ALL") and not isinstance(st, EmptyStrategy):
+            # the forest DB judges productivity from declared shifts: they must be what the
+            # rule (and each reverse form the DB derives from it) really reads
+            specval.check_declared_shifts(rule, "C02")
+            if isinstance(db, RuleDBForest) and db.reverse and rule.is_reversible():
+                for i in range(len(rule.children)):
+                    specval.check_declared_shifts(rule.to_reverse_rule(i), "C02")
         if self.focus not in ("C04", "ALL"):
             return
         classdb = db.classdb
@@ -741,6 +761,8 @@ def simplify_search(R):
         yield dict(R, world=dict(w, alphabet=[0, 1]))
     if w["compress"]:
         yield dict(R, world=dict(w, compress=False))
+    if w.get("marks", 1) > 1:
+        yield dict(R, world=dict(w, marks=1))
     pk = R["pack"]
     for sect in ("inferral", "initial", "symmetries", "ver"):
         for i in range(len(pk[sect])):
